@@ -63,7 +63,7 @@ for name, spec in OPS.items():
     for (ats, rt) in spec['sigs']:
         PROD.setdefault(rt, []).append((name, ats))
 
-WEIGHT = {'from_ra_dec_length': 2, 'from_cylindrical': 2, 'from_ra_dec': 1, 'from_cylindrical2': 1, 'add': 2, 'sub': 2, 'smul': 3, 'sdiv': 3, 'dot': 3, 'norm': 2, 'cross': 3, 'atan2': 3, 'matmul': 3, 'matvec': 3,
+WEIGHT = {'unrotate': 3, 'mdot': 3, 'mmdot': 2, 'unrotate_m': 1, 'from_ra_dec_length': 2, 'from_cylindrical': 2, 'from_ra_dec': 1, 'from_cylindrical2': 1, 'add': 2, 'sub': 2, 'smul': 3, 'sdiv': 3, 'dot': 3, 'norm': 2, 'cross': 3, 'atan2': 3, 'matmul': 3, 'matvec': 3,
           'inverse': 3, 'rot': 3, 'rotate': 3, 'qmul': 3, 'unit': 2, 'perp': 2, 'proj': 2, 'sep': 2, 'outer': 2, 'ediv': 2,
           'emul': 2, 'twovec': 2, 'to_matrix3': 2, 'from_scalars3': 2, 'from_scalars2': 1, 'powg': 2, 'powi': 2}
 
@@ -97,6 +97,10 @@ def rparams(name, ats, rng):
         p['form'] = rng.choice(['T', 'transpose'])
     if name == 'inverse':
         p['form'] = rng.choice(['inverse', 'recip'])
+    if name == 'mdot':
+        p['a1'] = rng.choice([0, 1, -1, -2]); p['a2'] = rng.choice([0, -1])
+    if name == 'mmdot':
+        p['a1'] = rng.choice([0, 1, -1, -2]); p['a2'] = rng.choice([0, 1, -1, -2])
     if name == 'from_ra_dec':
         p['len'] = rng.choice(['none', 'one', 'num'])
         p['c'] = rng.choice([1.0, 2.0, 0.5, -1.5])
@@ -560,6 +564,7 @@ def gen_cases(rng, tier):
                             break
     # 2. all subsets of operands carrying the key, for binary/ternary operations
     for name in ('add', 'sub', 'smul', 'sdiv', 'atan2', 'dot', 'cross', 'outer', 'emul', 'ediv', 'matmul', 'matvec', 'qmul',
+                 'unrotate', 'unrotate_m', 'mdot', 'mmdot',
                  'from_scalars3', 'from_parts', 'perp', 'proj', 'withnorm', 'rotate', 'stack'):
         sigs = OPS[name]['sigs'] if name != 'stack' else [(('S', 'S'), 'S'), (('V3', 'V3', 'V3'), 'V3')]
         for (ats, rt) in sigs[:2]:
